@@ -110,7 +110,7 @@ def rl_events(enc):
         state["seen"] += 1
         state["out"] = n
 
-    with _line_hook(func, "length = next(data_iter, 128)", hit):
+    with _line_hook(func, "length = next(data_iter", hit):
         try:
             out = func(enc)
             return out, None, ev
